@@ -276,7 +276,7 @@ def simple_loop(n, kname, others, bound="g_n"):
 
 inst("ZeroObjColSingleton", "ZeroObjColSingletonPS", XYSR,
      [("int", "m_j"), ("int", "m_i"), ("int", "m_old_j"), (R_, "m_lhs"), (R_, "m_rhs"), (R_, "m_lower"), (R_, "m_upper"), (DSV, "m_row")],
-     tier="thorough", min_obl=500,
+     tier="quick", min_obl=500,
      mutants=[mut("swap_status", "ZeroObjColSingletonPS", "         x[m_j]       = m_upper;\n         cStatus[m_j] = SPxSolverBase<R>::ON_UPPER;\n      }\n      else if(aij < 0)\n      {\n         x[m_j]       = m_lower;\n         cStatus[m_j] = SPxSolverBase<R>::ON_LOWER;",
                   "         x[m_j]       = m_upper;\n         cStatus[m_j] = SPxSolverBase<R>::ON_LOWER;\n      }\n      else if(aij < 0)\n      {\n         x[m_j]       = m_lower;\n         cStatus[m_j] = SPxSolverBase<R>::ON_LOWER;"),
               mut("drop_row_status", "ZeroObjColSingletonPS", "         rStatus[m_i] = (aij > 0 ? SPxSolverBase<R>::ON_LOWER : SPxSolverBase<R>::ON_UPPER);", "         ;"),
@@ -285,7 +285,7 @@ inst("ZeroObjColSingleton", "ZeroObjColSingletonPS", XYSR,
 
 inst("FreeColSingleton", "FreeColSingletonPS", XYSR,
      [("int", "m_j"), ("int", "m_i"), ("int", "m_old_j"), ("int", "m_old_i"), (R_, "m_obj"), (R_, "m_lRhs"), ("bool", "m_onLhs"), ("bool", "m_eqCons"), (DSV, "m_row")],
-     tier="thorough", min_obl=500, loops=[simple_loop(0, "1::3::k", ["val"])],
+     tier="quick", min_obl=500, loops=[simple_loop(0, "1::3::k", ["val"])],
      mutants=[mut("col_status", "FreeColSingletonPS", "cStatus[m_j] = SPxSolverBase<R>::BASIC;", "cStatus[m_j] = SPxSolverBase<R>::ZERO;"),
               mut("row_status", "FreeColSingletonPS", "rStatus[m_i] = SPxSolverBase<R>::FIXED;", "rStatus[m_i] = SPxSolverBase<R>::BASIC;"),
               mut("shift_idx", "FreeColSingletonPS", "x[m_old_j] = x[m_j];", "x[m_old_j] = x[m_old_j];"),
@@ -294,7 +294,7 @@ inst("FreeColSingleton", "FreeColSingletonPS", XYSR,
 inst("MultiAggregation", "MultiAggregationPS", XYSR,
      [("int", "m_j"), ("int", "m_i"), ("int", "m_old_j"), ("int", "m_old_i"), (R_, "m_upper"), (R_, "m_lower"), (R_, "m_obj"), (R_, "m_const"),
       ("bool", "m_onLhs"), ("bool", "m_eqCons"), (DSV, "m_row"), (DSV, "m_col")],
-     tier="thorough", min_obl=500, loops=[simple_loop(0, "1::3::k", ["val"]), simple_loop(1, "1::4::k", ["dualVal"], "g_n2")],
+     tier="quick", min_obl=500, loops=[simple_loop(0, "1::3::k", ["val"]), simple_loop(1, "1::4::k", ["dualVal"], "g_n2")],
      mutants=[mut("col_status", "MultiAggregationPS", "cStatus[m_j] = SPxSolverBase<R>::BASIC;", "cStatus[m_j] = SPxSolverBase<R>::FIXED;"),
               mut("redcost", "MultiAggregationPS", "r[m_j] = 0.0;", "r[m_old_j] = 0.0;"),
               mut("swap_status", "MultiAggregationPS", "rStatus[m_i] = SPxSolverBase<R>::ON_LOWER;", "rStatus[m_i] = SPxSolverBase<R>::ON_UPPER;")])
@@ -302,7 +302,7 @@ inst("MultiAggregation", "MultiAggregationPS", XYSR,
 inst("Aggregation", "AggregationPS", XYSR,
      [("int", "m_j"), ("int", "m_i"), ("int", "m_old_j"), ("int", "m_old_i"), (R_, "m_upper"), (R_, "m_lower"), (R_, "m_obj"), (R_, "m_oldupper"),
       (R_, "m_oldlower"), (R_, "m_rhs"), (DSV, "m_row"), (DSV, "m_col")],
-     tier="thorough", min_obl=500,
+     tier="quick", min_obl=500,
      loops=[{"function": BODY, "loop": 0, "locals": [["k", "1::3::k"], "active_idx", "val"],
              "invariants": ["0<=k && k<=2",
                             "(k==0 && active_idx==-1) || (k==1 && active_idx==(gp_i1[0]==g_b ? -1 : gp_i1[0])) || (k==2 && active_idx==g_a)"],
@@ -317,7 +317,7 @@ inst("DoubletonEquation", "DoubletonEquationPS", ["x", "y", "", "r", "cStatus", 
      [("int", "m_j"), ("int", "m_k"), ("int", "m_i"), ("bool", "m_maxSense"), ("bool", "m_jFixed"), (R_, "m_jObj"), (R_, "m_kObj"), (R_, "m_aij"),
       ("bool", "m_strictLo"), ("bool", "m_strictUp"), (R_, "m_newLo"), (R_, "m_newUp"), (R_, "m_oldLo"), (R_, "m_oldUp"), (R_, "m_Lo_j"), (R_, "m_Up_j"),
       (R_, "m_lhs"), (R_, "m_rhs"), (DSV, "m_col")],
-     tier="thorough", min_obl=400,
+     tier="quick", min_obl=400,
      loops=[{"function": BODY, "loop": 0, "locals": ["_k", "val"], "invariants": ["0<=_k && _k<=g_n"], "assigns": ["_k", "val"], "decreases": "g_n-_k"}],
      mutants=[mut("k_status", "DoubletonEquationPS", "cStatus[m_k] = SPxSolverBase<R>::BASIC;", "cStatus[m_k] = SPxSolverBase<R>::ON_LOWER;"),
               mut("j_status", "DoubletonEquationPS", "            cStatus[m_j] = SPxSolverBase<R>::ON_UPPER;", "            cStatus[m_j] = SPxSolverBase<R>::BASIC;"),
@@ -332,7 +332,7 @@ def col_same(pos, vx, vr, vcs):
 inst("DuplicateCols_main", "DuplicateColsPS", ["x", "", "", "r", "cStatus", "rStatus", "isOptimal"],
      [("int", "m_j"), ("int", "m_k"), (R_, "m_loJ"), (R_, "m_upJ"), (R_, "m_loK"), (R_, "m_upK"), (R_, "m_scale"), ("bool", "m_isFirst"),
       ("bool", "m_isLast"), (r"DataArray<int>", "m_perm")],
-     tier="thorough", min_obl=800, defines={"PS_ONLY_MAIN": ""},
+     tier="quick", min_obl=800, defines={"PS_ONLY_MAIN": ""},
      loops=[{"function": BODY, "loop": 0, "locals": ["i"],
              "invariants": ["-1<=i && i<g_n",
                             "(g_kc < g_n && gp_i1[g_kc] >= 0 && g_kc > i) ? " + col_same("g_kc", "v_x2", "v_r2", "v_cs2") + " : " + col_same("g_kc", "v_x", "v_r", "v_cs"),
@@ -383,7 +383,7 @@ inst("DuplicateRows", "DuplicateRowsPS", ["", "y", "s", "", "cStatus", "rStatus"
      [("int", "m_i"), (R_, "m_i_rowObj"), ("int", "m_maxLhsIdx"), ("int", "m_minRhsIdx"), ("bool", "m_maxSense"), ("bool", "m_isFirst"),
       ("bool", "m_isLast"), ("bool", "m_fixed"), ("int", "m_nCols"), (DSV, "m_scale"), (DSV, "m_rowObj"), (r"DataArray<int>", "m_rIdxLocalOld"),
       (r"DataArray<int>", "m_perm"), (r"DataArray<bool>", "m_isLhsEqualRhs")],
-     tier="thorough", min_obl=1000,
+     tier="quick", min_obl=1000,
      loops=[{"function": BODY, "loop": 0, "locals": [["i", "1::1::1::i"]],
              "invariants": ["-1<=i && i<g_n2",
                             "(g_kr < g_n2 && gp_i2[g_kr] >= 0 && g_kr > i) ? " + row_same("g_kr", "v_y2", "v_s2", "v_rs3") + " : " + row_same("g_kr", "v_y", "v_s", "v_rs"),
